@@ -15,10 +15,11 @@ package ocsp
 //@   ensures err == nil ==> ret != nil
 //@   ensures[C02] revoked_answer_is_reported: called(OCSPRevocationChecker.parseOcspResponse#1) && res(OCSPRevocationChecker.parseOcspResponse#1, 1) == nil && res(OCSPRevocationChecker.parseOcspResponse#1, 0).SerialNumber != nil && big(res(OCSPRevocationChecker.parseOcspResponse#1, 0).SerialNumber) == big(clientCertificate.SerialNumber) ==> err == nil && ret.Revoked == (res(OCSPRevocationChecker.parseOcspResponse#1, 0).Status == ocsp.Revoked)
 //@   ensures[C02] cached_answer_is_returned: called(OCSPRevocationChecker.tryGetResponseFromCache#1) && res(OCSPRevocationChecker.tryGetResponseFromCache#1, 1) == nil ==> err == nil && ret == res(OCSPRevocationChecker.tryGetResponseFromCache#1, 0)
+//@   ensures[C02,C03,C05] strict_accepts_only_with_an_answer: c.ocspConfig.OCSPAIAStrict && (exists i int :: 0 <= i && i < len(clientCertificate.OCSPServer) && hasprefix(lower(clientCertificate.OCSPServer[i]), "http")) && !(called(OCSPRevocationChecker.tryGetResponseFromCache#1) && res(OCSPRevocationChecker.tryGetResponseFromCache#1, 1) == nil) && !(called(OCSPRevocationChecker.parseOcspResponse#1) && res(OCSPRevocationChecker.parseOcspResponse#1, 1) == nil && res(OCSPRevocationChecker.parseOcspResponse#1, 0).SerialNumber != nil && big(res(OCSPRevocationChecker.parseOcspResponse#1, 0).SerialNumber) == big(clientCertificate.SerialNumber)) ==> err != nil
 //@   ensures[C02,C03,C05] strict_needs_an_answer: called(OCSPRevocationChecker.filterHTTPOCSPServers#1) && !(called(OCSPRevocationChecker.parseOcspResponse#1) && res(OCSPRevocationChecker.parseOcspResponse#1, 1) == nil && res(OCSPRevocationChecker.parseOcspResponse#1, 0).SerialNumber != nil && big(res(OCSPRevocationChecker.parseOcspResponse#1, 0).SerialNumber) == big(clientCertificate.SerialNumber)) && c.ocspConfig.OCSPAIAStrict && len(res(OCSPRevocationChecker.filterHTTPOCSPServers#1)) > 0 ==> err != nil
 //@   ensures[C02] lenient_never_rejects_for_unavailability: called(OCSPRevocationChecker.filterHTTPOCSPServers#1) && !(called(OCSPRevocationChecker.parseOcspResponse#1) && res(OCSPRevocationChecker.parseOcspResponse#1, 1) == nil && res(OCSPRevocationChecker.parseOcspResponse#1, 0).SerialNumber != nil && big(res(OCSPRevocationChecker.parseOcspResponse#1, 0).SerialNumber) == big(clientCertificate.SerialNumber)) && !(c.ocspConfig.OCSPAIAStrict && len(res(OCSPRevocationChecker.filterHTTPOCSPServers#1)) > 0) ==> err == nil && !ret.Revoked
 //@   ensures[C05] answer_is_about_this_certificate: err == nil && ret.OcspResponse != nil && !(called(OCSPRevocationChecker.tryGetResponseFromCache#1) && res(OCSPRevocationChecker.tryGetResponseFromCache#1, 1) == nil) ==> ret.OcspResponse.SerialNumber != nil && big(ret.OcspResponse.SerialNumber) == big(clientCertificate.SerialNumber)
-//@   ensures[C14,C05] only_answers_are_cached: called(CacheTable.Add#any) ==> called(OCSPRevocationChecker.parseOcspResponse#1) && res(OCSPRevocationChecker.parseOcspResponse#1, 1) == nil && res(OCSPRevocationChecker.parseOcspResponse#1, 0).SerialNumber != nil && big(res(OCSPRevocationChecker.parseOcspResponse#1, 0).SerialNumber) == big(clientCertificate.SerialNumber) && arg(CacheTable.Add#any, 2) > 0
+//@   ensures[C02,C03,C05,C14] only_answers_are_cached: called(CacheTable.Add#any) ==> called(OCSPRevocationChecker.parseOcspResponse#1) && res(OCSPRevocationChecker.parseOcspResponse#1, 1) == nil && res(OCSPRevocationChecker.parseOcspResponse#1, 0).SerialNumber != nil && big(res(OCSPRevocationChecker.parseOcspResponse#1, 0).SerialNumber) == big(clientCertificate.SerialNumber) && arg(CacheTable.Add#any, 2) > 0
 //@   ensures[C02,C14] cached_verdict_is_the_answer: called(CacheTable.Add#any) ==> typeis(arg(CacheTable.Add#any, 3), core.RevocationStatus) && as(arg(CacheTable.Add#any, 3), core.RevocationStatus).Revoked == (res(OCSPRevocationChecker.parseOcspResponse#1, 0).Status == ocsp.Revoked) && as(arg(CacheTable.Add#any, 3), core.RevocationStatus).OcspResponse == res(OCSPRevocationChecker.parseOcspResponse#1, 0)
 //@   ensures[C14,C05] cache_key_names_issuer_and_serial: called(OCSPRevocationChecker.tryGetResponseFromCache#1) ==> arg(OCSPRevocationChecker.tryGetResponseFromCache#1, 1) == old(cacheKeyOf(clientCertificate))
 //@   ensures[C14,C05] lookup_and_store_use_the_same_key: called(CacheTable.Add#any) ==> typeis(arg(CacheTable.Add#any, 1), string) && as(arg(CacheTable.Add#any, 1), string) == arg(OCSPRevocationChecker.tryGetResponseFromCache#1, 1)
